@@ -38,7 +38,6 @@ structure DS where
   ambiguous : List (Nat × Nat) := []          -- (mailbox, comm) cancelled while possibly still in flight, or taken
                                               -- from done_comm_queue_ (its transfer may have ended before the irecv)
   dumps : List (Nat × List String) := []      -- final pending sends per mailbox (implementation)
-  crashExpected : Bool := false               -- the model reached `mbox_->remove(this)` with mbox_ == nullptr
   usedReceiver : List Nat := []               -- mailboxes on which set_receiver was called
   line : Nat := 0
 
@@ -184,7 +183,6 @@ def judge (s : DS) (q a : List String) : DS × Verdict :=
         match s.mbs[hi.mb]? with
         | some m =>
           let amb := (stateOf s h == some .running)
-          let s := if cancelCrashes m hi.id then { s with crashExpected := true } else s
           let s1 := ({ s with mbs := s.mbs.set hi.mb (cancel m hi.id) }).setHandle h { hi with canceled := true }
           (if amb then { s1 with ambiguous := (hi.mb, hi.id) :: s1.ambiguous } else s1, .ok)
         | none => (s, .bad)
@@ -199,7 +197,7 @@ def judge (s : DS) (q a : List String) : DS × Verdict :=
   | ["c", _, "clear", m] =>
     match m.toNat?, s.mbs[m.toNat?.getD 99]? with
     | some m, some mbox =>
-      ({ s with mbs := s.mbs.set m (clear mbox), crashExpected := s.crashExpected || clearCrashes mbox }, .ok)
+      ({ s with mbs := s.mbs.set m (clear mbox) }, .ok)
     | _, _ => (s, .bad)
   | ["c", act, "probe", m, f, tag] =>
     match act.toNat?, parseFilter f, tag.toNat?, s.mbs[m.toNat?.getD 99]? with
@@ -315,10 +313,8 @@ def judge (s : DS) (q a : List String) : DS × Verdict :=
   | ["end"] =>
     match a with
     | [kind, _] =>
-      if kind == "crash" then
-        (s, .monfail (if s.crashExpected then "the library crashed: cancel()/clear() of a queued comm whose mbox_ was reset by an iprobe (null dereference)"
-                      else "the library crashed")) else
-      if s.crashExpected then (s, .disagree "model-expects-null-dereference") else
+      -- (`cancel_never_crashes` / `clear_never_crashes`: the model never reaches `mbox_->remove(this)` with a null mbox_)
+      if kind == "crash" then (s, .monfail "the library crashed") else
       match fifoMonitor s with
       | some why => (s, .monfail why)
       | none =>
